@@ -273,6 +273,34 @@ def explore(ref, depth, table, plen=2, name=None):
     return out
 
 
+def _rotation_work(task):
+    ref, table, h = task
+    spec = install_baseline(ref, table)
+    obj, obs, keep, viol = build(spec, tuple(h))
+    return [O.digest(o) for o in obs], [(n, sig, detail) for n, sig, detail in viol][:5]
+
+
+def long_histories(ref, table, hs):
+    """A few fixed LONG histories (address reuse by the allocator needs churn
+    that sequences <= 3 do not give).  Each one runs in its own pristine
+    process, twice (two processes): CPython's allocation sequence is then
+    fixed, so the observations must be identical - that is asserted - and the
+    verdict is reproducible.  Returns (fails, events applied)."""
+    from . import pristine
+
+    res = pristine.pristine_map(_rotation_work, [(ref, table, list(h)) for h in hs])
+    fails, applied = [], 0
+    for h, (a, b) in zip(hs, res):
+        applied += len(h)
+        case = {"spec": list(ref), "history": list(h), "long": True}
+        if a != b:
+            fails.append((f"{ref[1]}:long-history-not-reproducible", case,
+                          "the same long history gave different observations in two pristine processes"))
+        for n, sig, detail in a[1][:1]:
+            fails.append((sig, dict(case, at=n), f"at event {n} of a history of {len(h)}: {detail}"))
+    return fails, applied
+
+
 def _confirm_work(task):
     """In a pristine process: first the prelude (each operation on its own
     fresh instance - other instances used earlier in the process), then the
